@@ -36,6 +36,11 @@ Proof.
   apply in_app_or in H. destruct H as [H|H]; [exists x; auto|]. destruct (IH H) as (y & Hy & Hr). exists y; auto.
 Qed.
 
+Lemma lrefs_single x : lrefs [x] = refs_of x.
+Proof. unfold lrefs. simpl. apply app_nil_r. Qed.
+Lemma ldefs_single x : ldefs [x] = defs_of x.
+Proof. unfold ldefs. simpl. apply app_nil_r. Qed.
+
 Section W.
   Variable o : wopts.
   Let p := w_prefix o.
@@ -136,16 +141,17 @@ Section W.
         + intros c E. apply (Hm g c Hn). rewrite E. simpl. apply mask_chain_head.
         + intros f Hin. apply (Hf g f Hn Hin).
       - (* NPath *)
-        intros i fl st _ _ Hn clip r Hr. simpl in Hr. rewrite app_nil_r in Hr.
-        apply write_path_refs in Hr. destruct Hr as [[Hsv ->]|[[Hsv ->]|(c & E & _)]]; [| |discriminate].
+        intros i fl st _ _ Hn clip r Hr. change (In r (lrefs [write_path o i fl st None])) in Hr.
+        rewrite lrefs_single in Hr. apply write_path_refs in Hr. destruct Hr as [[Hsv ->]|[[Hsv ->]|(c & E & _)]]; [| |discriminate].
         + apply (Hp i fl st fl Hn); simpl; auto.
         + apply (Hp i fl st st Hn); simpl; auto.
       - (* NImage *)
         intros i sub _ Hn clip r Hr. simpl in Hr. rewrite app_nil_r, flat_map_app, id_attr_refs in Hr. destruct Hr.
       - (* NText *)
         intros i flat ch Hfl Hn clip r Hr. rewrite write_node_text in Hr.
-        destruct (w_preserve_text o) eqn:Hpt.
-        + simpl in Hr. rewrite app_nil_r, id_attr_refs in Hr. simpl in Hr.
+        destruct (Bool.bool_dec (w_preserve_text o) true) as [Hpt|Hpt];
+          [rewrite Hpt in Hr|apply not_true_is_false in Hpt; rewrite Hpt in Hr].
+        + rewrite lrefs_single, refs_of_eq, id_attr_refs in Hr. simpl in Hr.
           change (In r (lrefs (map (write_chunk o) ch))) in Hr. apply in_lrefs_map in Hr.
           destruct Hr as (c & Hin & Hr). eapply chunk_refs; eauto.
         + apply Hfl with (clip := clip); auto.
@@ -155,26 +161,25 @@ Section W.
             -- intros c E. congruence.
             -- intros f Hin. rewrite E3 in Hin. destruct Hin.
       - (* G *)
-        intros i c m fs ks _ _ _ Hks Hkids Hown clip r Hr. destruct Hown as (O1 & O2 & O3). simpl in *.
+        intros i c m fs ks _ _ _ Hks Hkids Hown clip r Hr. destruct Hown as (O1 & O2 & O3). simpl g_kids in Hkids. simpl g_clip in O1. simpl g_mask in O2. simpl g_filters in O3.
         destruct clip.
         + rewrite write_group_clip in Hr. apply in_lrefs_flat_map in Hr. destruct Hr as (k & Hk & Hr).
-          destruct k as [|pi fl st| |]; simpl in Hr; try destruct Hr. rewrite app_nil_r in Hr.
+          destruct k as [|pi fl st| |]; unfold clip_kid in Hr; try (destruct Hr; fail). rewrite lrefs_single in Hr.
           apply write_path_refs in Hr. destruct Hr as [[Hsv ->]|[[Hsv ->]|(c0 & E & ->)]].
           * apply (Hp pi fl st fl (Hkids _ Hk)); simpl; auto.
           * apply (Hp pi fl st st (Hkids _ Hk)); simpl; auto.
           * destruct c as [cd|]; simpl in E; [|discriminate]. inversion E; subst. apply O1. reflexivity.
-        + rewrite write_group_noclip in Hr. simpl in Hr. rewrite app_nil_r in Hr. rewrite !flat_map_app, id_attr_refs in Hr.
-          simpl in Hr. apply in_app_or in Hr. destruct Hr as [Hr|Hr].
-          { destruct c as [cd|]; simpl in Hr; [|destruct Hr]. destruct Hr as [<-|[]]. apply O1. reflexivity. }
+        + rewrite write_group_noclip, lrefs_single, refs_of_eq in Hr. rewrite !flat_map_app, id_attr_refs in Hr.
           apply in_app_or in Hr. destruct Hr as [Hr|Hr].
-          { destruct m as [cd|]; simpl in Hr; [|destruct Hr]. destruct Hr as [<-|[]]. apply O2. reflexivity. }
-          apply in_app_or in Hr. destruct Hr as [Hr|Hr].
-          { destruct fs as [|f0 fr]; [destruct Hr|]. simpl in Hr. rewrite app_nil_r in Hr.
-            change (In r (map (fun f => (p, f_id f)) (f0 :: fr))) in Hr. apply in_map_iff in Hr.
-            destruct Hr as (f & <- & Hin). apply O3. exact Hin. }
-          change (In r (lrefs (flat_map (fun k => write_node o k false) ks))) in Hr.
-          apply in_lrefs_flat_map in Hr. destruct Hr as (k & Hk & Hr).
-          rewrite Forall_forall in Hks. apply (Hks k Hk (Hkids k Hk) false r Hr).
+          * simpl app in Hr. apply in_app_or in Hr. destruct Hr as [Hr|Hr].
+            { destruct c as [cd|]; simpl in Hr; [|destruct Hr]. destruct Hr as [<-|[]]. apply O1. reflexivity. }
+            apply in_app_or in Hr. destruct Hr as [Hr|Hr].
+            { destruct m as [cd|]; simpl in Hr; [|destruct Hr]. destruct Hr as [<-|[]]. apply O2. reflexivity. }
+            destruct fs as [|f0 fr]; [destruct Hr|]. simpl flat_map in Hr. rewrite app_nil_r in Hr.
+            change (In r (map (fun f : filterdef => (p, f_id f)) (f0 :: fr))) in Hr.
+            apply in_map_iff in Hr. destruct Hr as (f & <- & Hin). apply O3. exact Hin.
+          * apply in_lrefs_flat_map in Hr. destruct Hr as (k & Hk & Hr).
+            rewrite Forall_forall in Hks. apply (Hks k Hk (Hkids k Hk) false r Hr).
     Qed.
 
     Lemma node_refs_good n clip r : In n U -> In r (lrefs (write_node o n clip)) -> Good r.
@@ -260,3 +265,658 @@ Section W.
         right. apply in_or_app. right. simpl. right. apply in_or_app. right. exact Hd.
   Qed.
 End W.
+
+(* ================================================================================================ *)
+(* Assembly: the whole document                                                                     *)
+Definition coherent (t : tree) : Prop :=
+  let r := t_root t in
+  (forall a b, In a (reach_clips r) -> In b (reach_clips r) -> c_ptr a = c_ptr b -> c_id a = c_id b) /\
+  (forall a b, In a (reach_masks r) -> In b (reach_masks r) -> m_ptr a = m_ptr b -> m_id a = m_id b) /\
+  (forall a b, In a (reach_filters r) -> In b (reach_filters r) -> f_ptr a = f_ptr b -> f_id a = f_id b) /\
+  (forall a b, In a (reach_paints r) -> In b (reach_paints r) -> pa_ptr a = pa_ptr b -> pa_id a = pa_id b).
+
+(* Text nodes as text/flatten.rs builds them: `flattened` carries the text's id and no definitions;
+   a text path has a non-empty id (NonEmptyString) *)
+Definition texts_wf (t : tree) : Prop :=
+  forall i flat ch, In (NText i flat ch) (all_group (t_root t)) ->
+    g_id flat = i /\ g_clip flat = None /\ g_mask flat = None /\ g_filters flat = [] /\
+    (forall q j sp, In (CH (Some (q, j)) sp) ch -> j <> 0).
+
+(* NOT the known class `feimage-empty-href` (F10): the element an feImage points to has an id *)
+Definition feimage_ok (t : tree) : Prop :=
+  forall f c, In f (t_filts t) -> In c (fe_children f) -> node_id c <> 0.
+(* NOT the known class `text-span-paint` (F27) *)
+Definition span_ok (t : tree) : Prop :=
+  forall n d, In n (all_group (t_root t)) -> In d (span_paints_of n) ->
+    In (pa_id d) (map pa_id (t_lins t ++ t_rads t ++ t_pats t)).
+
+Lemma node_paints_incl sel n : (forall q, sel q = true -> is_server q = true) ->
+  incl (node_paints sel n) (node_paints is_server n).
+Proof.
+  intros Hs d Hd. destruct n as [g|i fl st|i sub|i flat ch]; try exact Hd.
+  change (In d (filter sel [fl; st])) in Hd. change (In d (filter is_server [fl; st])).
+  apply filter_In in Hd. destruct Hd as [H1 H2]. apply filter_In. split; auto.
+Qed.
+
+Section Top.
+  Variable o : wopts.
+  Let p := w_prefix o.
+  Variable t : tree.
+  Let root := t_root t.
+  Let U := all_group root.
+  Let D := defs_of (write o t).
+
+  Lemma D_eq : D = ldefs (write_defs o t) ++ ldefs (write_elements o root false).
+  Proof.
+    unfold D, write. rewrite defs_of_eq.
+    assert (E : flat_map attr_defs (AXmlns :: (if has_xlink (t_root t) then [AXlink] else [])) = []).
+    { destruct (has_xlink (t_root t)); reflexivity. }
+    rewrite E. simpl. reflexivity.
+  Qed.
+  Lemma R_eq : refs_of (write o t) = lrefs (write_defs o t) ++ lrefs (write_elements o root false).
+  Proof.
+    unfold write. rewrite refs_of_eq.
+    assert (E : flat_map attr_refs (AXmlns :: (if has_xlink (t_root t) then [AXlink] else [])) = []).
+    { destruct (has_xlink (t_root t)); reflexivity. }
+    rewrite E. simpl. reflexivity.
+  Qed.
+
+  Lemma write_defs_eq :
+    write_defs o t =
+    map (write_lin o) (t_lins t) ++ map (write_rad o) (t_rads t) ++ map (write_pat o) (t_pats t) ++
+    write_text_path_paths o root ++ write_filters o (t_filts t) [] ++
+    map (write_clip o) (t_clips t) ++ map (write_mask o) (t_masks t).
+  Proof. reflexivity. Qed.
+
+  Lemma D_lin d : In d (t_lins t) -> In (p, pa_id d) D.
+  Proof. intro H. rewrite D_eq; apply in_or_app; left; rewrite write_defs_eq; rewrite !ldefs_app; apply in_or_app; left. apply (in_ldefs_map (write_lin o) _ d); auto. simpl. auto. Qed.
+  Lemma D_rad d : In d (t_rads t) -> In (p, pa_id d) D.
+  Proof. intro H. rewrite D_eq; apply in_or_app; left; rewrite write_defs_eq; rewrite !ldefs_app; apply in_or_app; right; apply in_or_app; left. apply (in_ldefs_map (write_rad o) _ d); auto. simpl. auto. Qed.
+  Lemma D_pat d : In d (t_pats t) -> In (p, pa_id d) D.
+  Proof. intro H. rewrite D_eq; apply in_or_app; left; rewrite write_defs_eq; rewrite !ldefs_app; apply in_or_app; right; apply in_or_app; right; apply in_or_app; left. apply (in_ldefs_map (write_pat o) _ d); auto. simpl. auto. Qed.
+  Lemma D_clip d : In d (t_clips t) -> In (p, c_id d) D.
+  Proof. intro H. rewrite D_eq; apply in_or_app; left; rewrite write_defs_eq; rewrite !ldefs_app; apply in_or_app; right; apply in_or_app; right; apply in_or_app; right; apply in_or_app; right; apply in_or_app; right; apply in_or_app; left. apply (in_ldefs_map (write_clip o) _ d); auto. simpl. auto. Qed.
+  Lemma D_mask d : In d (t_masks t) -> In (p, m_id d) D.
+  Proof.
+    intro H. rewrite D_eq; apply in_or_app; left; rewrite write_defs_eq; rewrite !ldefs_app.
+    do 6 (apply in_or_app; right). apply (in_ldefs_map (write_mask o) _ d); auto. simpl. auto.
+  Qed.
+  Lemma D_filter f : In f (t_filts t) -> In (p, f_id f) D.
+  Proof. intro H. rewrite D_eq; apply in_or_app; left; rewrite write_defs_eq; rewrite !ldefs_app; apply in_or_app; right; apply in_or_app; right; apply in_or_app; right; apply in_or_app; right; apply in_or_app; left. apply (proj1 (write_filters_spec o (t_filts t) [])). exact H. Qed.
+
+  Lemma D_textpath i flat ch q j sp :
+    In (NText i flat ch) U -> In (CH (Some (q, j)) sp) ch -> j <> 0 -> In (p, j) D.
+  Proof.
+    intros Hn Hc Hj. rewrite D_eq; apply in_or_app; left; rewrite write_defs_eq; rewrite !ldefs_app; apply in_or_app; right; apply in_or_app; right; apply in_or_app; right; apply in_or_app; left.
+    assert (Hdone : incl (text_path_defs o (NText i flat ch)) (write_text_path_paths o root)).
+    { unfold write_text_path_paths.
+      apply (walk_group_done false (fun n acc => acc ++ text_path_defs o n) (fun n acc => incl (text_path_defs o n) acc)); auto.
+      - intros n a. apply incl_appr, incl_refl.
+      - intros n m a H. apply incl_appl. exact H. }
+    unfold ldefs. apply in_flat_map. exists (XE Tpath (id_attr o j) []). split.
+    - apply Hdone. simpl. apply in_flat_map. exists (CH (Some (q, j)) sp). split; simpl; auto.
+    - rewrite defs_of_eq, (id_attr_defs o j Hj). simpl. auto.
+  Qed.
+
+  Hypothesis Hcomplete : coll_complete t.
+  Hypothesis Hsound : coll_sound t.
+  Hypothesis Hcoh : coherent t.
+  Hypothesis Htexts : texts_wf t.
+
+  Lemma good_clip g c : In (NGroup g) U -> In c (ochain clip_chain (g_clip g)) -> In (p, c_id c) D.
+  Proof.
+    intros Hg Hc. assert (Hr : In c (reach_clips root)).
+    { unfold reach_clips, reach_defs. apply in_flat_map. exists (NGroup g). split; auto. }
+    destruct Hcomplete as (C1 & _). specialize (C1 c Hr). apply in_map_iff in C1. destruct C1 as (c' & E & Hin).
+    destruct Hsound as (S1 & _). destruct Hcoh as (K1 & _).
+    rewrite <- (K1 c' c (S1 c' Hin) Hr E). apply D_clip. exact Hin.
+  Qed.
+  Lemma good_mask g c : In (NGroup g) U -> In c (ochain mask_chain (g_mask g)) -> In (p, m_id c) D.
+  Proof.
+    intros Hg Hc. assert (Hr : In c (reach_masks root)).
+    { unfold reach_masks, reach_defs. apply in_flat_map. exists (NGroup g). split; auto. }
+    destruct Hcomplete as (_ & C1 & _). specialize (C1 c Hr). apply in_map_iff in C1. destruct C1 as (c' & E & Hin).
+    destruct Hsound as (_ & S1 & _). destruct Hcoh as (_ & K1 & _).
+    rewrite <- (K1 c' c (S1 c' Hin) Hr E). apply D_mask. exact Hin.
+  Qed.
+  Lemma good_filter g f : In (NGroup g) U -> In f (g_filters g) -> In (p, f_id f) D.
+  Proof.
+    intros Hg Hf. assert (Hr : In f (reach_filters root)).
+    { unfold reach_filters, reach_defs. apply in_flat_map. exists (NGroup g). split; auto. }
+    destruct Hcomplete as (_ & _ & C1 & _). specialize (C1 f Hr). apply in_map_iff in C1. destruct C1 as (c' & E & Hin).
+    destruct Hsound as (_ & _ & S1 & _). destruct Hcoh as (_ & _ & K1 & _).
+    rewrite <- (K1 c' f (S1 c' Hin) Hr E). apply D_filter. exact Hin.
+  Qed.
+  Lemma good_paint i fl st d : In (NPath i fl st) U -> In d [fl; st] -> is_server d = true -> In (p, pa_id d) D.
+  Proof.
+    intros Hn Hd Hsv. assert (Hr : In d (reach_paints root)).
+    { unfold reach_paints, reach_defs. apply in_flat_map. exists (NPath i fl st). split; auto.
+      change (In d (filter is_server [fl; st])). apply filter_In. split; auto. }
+    destruct Hcomplete as (_ & _ & _ & C1). destruct (C1 d Hr) as (L1 & L2 & L3).
+    destruct Hsound as (_ & _ & _ & S1 & S2 & S3). destruct Hcoh as (_ & _ & _ & K1).
+    assert (Hsub : forall sel, (forall q, sel q = true -> is_server q = true) ->
+                   incl (reach_defs (node_paints sel) root) (reach_paints root)).
+    { intros sel Hs x Hx. unfold reach_paints, reach_defs in *. apply in_flat_map in Hx. destruct Hx as (n & Hn' & Hx).
+      apply in_flat_map. exists n. split; auto. apply (node_paints_incl sel n Hs). exact Hx. }
+    unfold is_server in Hsv. destruct (is_lin d) eqn:E1; [|destruct (is_rad d) eqn:E2; [|destruct (is_pat d) eqn:E3; [|discriminate]]].
+    - specialize (L1 eq_refl). apply in_map_iff in L1. destruct L1 as (d' & E & Hin).
+      rewrite <- (K1 d' d (Hsub is_lin sel_server_lin d' (S1 d' Hin)) Hr E). apply D_lin. exact Hin.
+    - specialize (L2 eq_refl). apply in_map_iff in L2. destruct L2 as (d' & E & Hin).
+      rewrite <- (K1 d' d (Hsub is_rad sel_server_rad d' (S2 d' Hin)) Hr E). apply D_rad. exact Hin.
+    - specialize (L3 eq_refl). apply in_map_iff in L3. destruct L3 as (d' & E & Hin).
+      rewrite <- (K1 d' d (Hsub is_pat sel_server_pat d' (S3 d' Hin)) Hr E). apply D_pat. exact Hin.
+  Qed.
+
+  Hypothesis Hfe : feimage_ok t.
+  Hypothesis Hspan : w_preserve_text o = true -> span_ok t.
+
+  Lemma good_span : w_preserve_text o = true ->
+    forall n d, In n U -> In d (span_paints_of n) -> In (p, pa_id d) D.
+  Proof.
+    intros Hpt n d Hn Hd. specialize (Hspan Hpt n d Hn Hd). apply in_map_iff in Hspan.
+    destruct Hspan as (d' & E & Hin). rewrite <- E. apply in_app_or in Hin. destruct Hin as [Hin|Hin]; [apply D_lin; auto|].
+    apply in_app_or in Hin. destruct Hin as [Hin|Hin]; [apply D_rad|apply D_pat]; auto.
+  Qed.
+  Lemma good_tp : w_preserve_text o = true ->
+    forall i flat ch q j sp, In (NText i flat ch) U -> In (CH (Some (q, j)) sp) ch -> In (p, j) D.
+  Proof.
+    intros _ i flat ch q j sp Hn Hc. destruct (Htexts i flat ch Hn) as (_ & _ & _ & _ & Hj).
+    apply (D_textpath i flat ch q j sp); auto. apply (Hj q j sp Hc).
+  Qed.
+  Lemma flat_bare i flat ch : In (NText i flat ch) U -> g_clip flat = None /\ g_mask flat = None /\ g_filters flat = [].
+  Proof. intro Hn. destruct (Htexts i flat ch Hn) as (_ & H1 & H2 & H3 & _). auto. Qed.
+
+  Definition Good (r : N * N) : Prop := In r D.
+
+  Lemma content_good n clip r : In n U -> In r (lrefs (write_node o n clip)) -> Good r.
+  Proof.
+    apply (node_refs_good o root Good good_clip good_mask good_filter good_paint good_span good_tp flat_bare).
+  Qed.
+  Lemma elements_good g clip r : (forall k, In k (g_kids g) -> In k U) -> In r (lrefs (write_elements o g clip)) -> Good r.
+  Proof.
+    apply (elements_refs_good o root Good good_clip good_mask good_filter good_paint good_span good_tp flat_bare).
+  Qed.
+
+  (* where the children of an feImage live *)
+  Lemma fe_child_in_U f c : In f (t_filts t) -> In c (fe_children f) -> In c U.
+  Proof.
+    intros Hf Hc. destruct Hsound as (_ & _ & S1 & _). specialize (S1 f Hf).
+    unfold reach_filters, reach_defs in S1. apply in_flat_map in S1. destruct S1 as (n & Hn & Hin).
+    destruct n as [g| | |]; simpl in Hin; try destruct Hin.
+    unfold fe_children in Hc. apply in_flat_map in Hc. destruct Hc as (pr & Hpr & Hc).
+    destruct (p_img pr) as [r0|] eqn:Ei; [|destruct Hc]. destruct (g_kids r0) as [|c0 rest] eqn:Ek; [destruct Hc|].
+    destruct Hc as [<-|[]]. apply (U_feimage_kid root g f pr r0 c0 Hn Hin Hpr Ei). rewrite Ek. left. reflexivity.
+  Qed.
+
+  Lemma fe_children_refs cs : forall written out w' r,
+    write_fe_children o cs written = (out, w') -> In r (lrefs out) ->
+    exists c, In c cs /\ In r (lrefs (write_node o c false)).
+  Proof.
+    induction cs as [|c rest IH]; intros written out w' r H Hr; simpl in H.
+    - inversion H; subst. destruct Hr.
+    - destruct (existsb (N.eqb (node_id c)) written).
+      + destruct (IH _ _ _ _ H Hr) as (c0 & H0 & H1). exists c0. split; auto. right; auto.
+      + destruct (write_fe_children o rest (written ++ [node_id c])) as [out1 w1] eqn:E1. inversion H; subst.
+        rewrite lrefs_app in Hr. apply in_app_or in Hr. destruct Hr as [Hr|Hr].
+        * exists c. split; auto. left; reflexivity.
+        * destruct (IH _ _ _ _ E1 Hr) as (c0 & H0 & H1). exists c0. split; auto. right; auto.
+  Qed.
+
+  Lemma prim_refs pr r : In r (refs_of (write_prim o pr)) ->
+    exists r0 c rest, p_img pr = Some r0 /\ g_kids r0 = c :: rest /\ r = (p, node_id c).
+  Proof.
+    destruct pr as [k res ins img]. unfold write_prim.
+    assert (Hin : forall l j, flat_map attr_refs ((fix go (l : list finput) (j : N) : list aval :=
+                     match l with [] => [] | i :: r => AIn j i :: go r (j + 1) end) l j) = []).
+    { induction l as [|x l IH]; intro j; simpl; auto. }
+    destruct (k =? 12).
+    - rewrite refs_of_eq. simpl. intro H. exfalso. induction ins as [|x l IH]; simpl in H; auto.
+    - rewrite refs_of_eq. rewrite !flat_map_app, Hin. simpl. rewrite app_nil_r.
+      destruct img as [r0|]; simpl; [|intros []]. destruct (g_kids r0) as [|c rest] eqn:E; simpl; [intros []|].
+      intros [<-|[]]. exists r0, c, rest. auto.
+  Qed.
+
+  Lemma filters_refs fs : forall written r, In r (lrefs (write_filters o fs written)) ->
+    exists f c, In f fs /\ In c (fe_children f) /\ (In r (lrefs (write_node o c false)) \/ r = (p, node_id c)).
+  Proof.
+    induction fs as [|f rest IH]; intros written r Hr; simpl in Hr; [destruct Hr|].
+    destruct (write_fe_children o (fe_children f) written) as [pre w'] eqn:E.
+    rewrite lrefs_app in Hr. apply in_app_or in Hr. destruct Hr as [Hr|Hr].
+    - destruct (fe_children_refs _ _ _ _ _ E Hr) as (c & Hc & H1). exists f, c. repeat split; auto. left; reflexivity.
+    - change (In r (lrefs ([XE Tfilter [AId p (f_id f)] (map (write_prim o) (f_prims f))] ++ write_filters o rest w'))) in Hr.
+      rewrite lrefs_app in Hr. apply in_app_or in Hr. destruct Hr as [Hr|Hr].
+      + rewrite lrefs_single, refs_of_eq in Hr. simpl in Hr. apply in_lrefs_map in Hr. destruct Hr as (pr & Hpr & Hr).
+        apply prim_refs in Hr. destruct Hr as (r0 & c & rs & E1 & E2 & ->). exists f, c. repeat split; auto.
+        * left; reflexivity.
+        * unfold fe_children. apply in_flat_map. exists pr. split; auto. rewrite E1, E2. left. reflexivity.
+      + destruct (IH _ _ Hr) as (f0 & c & Hf0 & Hc & H1). exists f0, c. repeat split; auto. right; auto.
+  Qed.
+
+  Lemma text_paths_no_refs : lrefs (write_text_path_paths o root) = [].
+  Proof.
+    unfold write_text_path_paths.
+    apply (walk_group_inv false (fun n acc => acc ++ text_path_defs o n) root (fun acc => lrefs acc = [])); auto.
+    intros m a _ Ha. rewrite lrefs_app, Ha. simpl. destruct m; simpl; auto.
+    induction chunks as [|c r IH]; simpl; auto. destruct c as [[[q j]|] sp]; simpl; auto.
+    rewrite app_nil_r, id_attr_refs. simpl. exact IH.
+  Qed.
+
+  Theorem refs_in_defs : forall r, In r (refs_of (write o t)) -> In r D.
+  Proof.
+    intros r Hr. rewrite R_eq in Hr. apply in_app_or in Hr. destruct Hr as [Hr|Hr].
+    2:{ apply (elements_good root false r); auto. intros k Hk. apply U_root_kid. exact Hk. }
+    rewrite write_defs_eq in Hr. rewrite !lrefs_app in Hr.
+    apply in_app_or in Hr. destruct Hr as [Hr|Hr].
+    { apply in_lrefs_map in Hr. destruct Hr as (d & _ & Hr). simpl in Hr. destruct Hr. }
+    apply in_app_or in Hr. destruct Hr as [Hr|Hr].
+    { apply in_lrefs_map in Hr. destruct Hr as (d & _ & Hr). simpl in Hr. destruct Hr. }
+    apply in_app_or in Hr. destruct Hr as [Hr|Hr].
+    { (* patterns *)
+      apply in_lrefs_map in Hr. destruct Hr as (d & Hd & Hr). unfold write_pat in Hr. rewrite refs_of_eq in Hr.
+      simpl in Hr. destruct d as [| | | |q j r0]; try (simpl in Hr; destruct Hr; fail).
+      apply (elements_good r0 false r); auto. intros k Hk.
+      destruct Hsound as (_ & _ & _ & _ & _ & S3). specialize (S3 _ Hd). unfold reach_defs in S3.
+      apply in_flat_map in S3. destruct S3 as (n & Hn & Hin). destruct n as [|i fl st| |]; cbn [node_paints] in Hin; try (destruct Hin; fail).
+      apply (U_pattern_kid root i fl st q j r0 k Hn); auto.
+      apply filter_In in Hin. destruct Hin as [[<-|[<-|[]]] _]; auto. }
+    apply in_app_or in Hr. destruct Hr as [Hr|Hr].
+    { rewrite text_paths_no_refs in Hr. destruct Hr. }
+    apply in_app_or in Hr. destruct Hr as [Hr|Hr].
+    { (* filters *)
+      apply filters_refs in Hr. destruct Hr as (f & c & Hf & Hc & [Hr|Er]); [|subst r].
+      - apply (content_good c false r); auto. apply (fe_child_in_U f c Hf Hc).
+      - destruct (proj2 (write_filters_spec o (t_filts t) []) f c Hf Hc (Hfe f c Hf Hc)) as [[]|Hd].
+        + intros f' c' Hf' Hc'. pose proof (fe_child_in_U f' c' Hf' Hc') as Hu. destruct c'; simpl; auto.
+          destruct (Htexts _ _ _ Hu) as (E & _). exact E.
+        + rewrite D_eq. apply in_or_app. left. rewrite write_defs_eq, !ldefs_app.
+          do 4 (apply in_or_app; right). apply in_or_app. left. exact Hd. }
+    apply in_app_or in Hr. destruct Hr as [Hr|Hr].
+    { (* clip paths *)
+      apply in_lrefs_map in Hr. destruct Hr as (c & Hc & Hr). unfold write_clip in Hr. rewrite refs_of_eq in Hr.
+      destruct Hsound as (S1 & _). specialize (S1 c Hc). unfold reach_clips, reach_defs in S1.
+      apply in_flat_map in S1. destruct S1 as (n & Hn & Hin). destruct n as [g| | |]; simpl in Hin; try destruct Hin.
+      apply in_app_or in Hr. destruct Hr as [Hr|Hr].
+      - simpl in Hr. destruct (c_next c) as [c'|] eqn:En; simpl in Hr; [|destruct Hr]. destruct Hr as [<-|[]].
+        apply (good_clip g c' Hn). destruct (g_clip g) as [c0|]; simpl in *; [|destruct Hin].
+        apply (clip_chain_succ c0 c c' Hin En).
+      - apply (elements_good (c_root c) true r); auto. intros k Hk. apply (U_clip_kid root g c k Hn Hin Hk). }
+    { (* masks *)
+      apply in_lrefs_map in Hr. destruct Hr as (c & Hc & Hr). unfold write_mask in Hr. rewrite refs_of_eq in Hr.
+      destruct Hsound as (_ & S1 & _). specialize (S1 c Hc). unfold reach_masks, reach_defs in S1.
+      apply in_flat_map in S1. destruct S1 as (n & Hn & Hin). destruct n as [g| | |]; simpl in Hin; try destruct Hin.
+      apply in_app_or in Hr. destruct Hr as [Hr|Hr].
+      - simpl in Hr. destruct (m_next c) as [c'|] eqn:En; simpl in Hr; [|destruct Hr]. destruct Hr as [<-|[]].
+        apply (good_mask g c' Hn). destruct (g_mask g) as [c0|]; simpl in *; [|destruct Hin].
+        apply (mask_chain_succ c0 c c' Hin En).
+      - apply (elements_good (m_root c) false r); auto. intros k Hk. apply (U_mask_kid root g c k Hn Hin Hk). }
+  Qed.
+End Top.
+
+(* ================================================================================================ *)
+(* One prefix everywhere                                                                            *)
+Definition attr_marks (a : aval) : list (N * N) := attr_defs a ++ attr_refs a.
+Fixpoint marks_of (x : xout) : list (N * N) :=
+  match x with
+  | XE _ attrs kids =>
+      flat_map attr_marks attrs ++
+      (fix go (l : list xout) : list (N * N) := match l with [] => [] | k :: r => marks_of k ++ go r end) kids
+  end.
+Definition lmarks (l : list xout) : list (N * N) := flat_map marks_of l.
+Lemma marks_of_eq tag a k : marks_of (XE tag a k) = flat_map attr_marks a ++ lmarks k.
+Proof. reflexivity. Qed.
+Lemma lmarks_app a b : lmarks (a ++ b) = lmarks a ++ lmarks b.
+Proof. apply flat_map_app. Qed.
+Lemma lmarks_single x : lmarks [x] = marks_of x.
+Proof. unfold lmarks. simpl. apply app_nil_r. Qed.
+
+Section XInd.
+  Variable P : xout -> Prop.
+  Hypothesis H : forall t a k, Forall P k -> P (XE t a k).
+  Fixpoint xout_ind' (x : xout) : P x :=
+    match x return P x with
+    | XE t a k => H t a k ((fix go (l : list xout) : Forall P l :=
+                              match l return Forall P l with
+                              | [] => Forall_nil _
+                              | y :: r => Forall_cons y (xout_ind' y) (go r)
+                              end) k)
+    end.
+End XInd.
+
+Lemma defs_in_marks x : incl (defs_of x) (marks_of x).
+Proof.
+  induction x as [t a k IH] using xout_ind'. rewrite defs_of_eq, marks_of_eq. intros r Hr.
+  apply in_app_or in Hr. apply in_or_app. destruct Hr as [Hr|Hr].
+  - left. apply in_flat_map in Hr. destruct Hr as (at1 & H1 & H2). apply in_flat_map. exists at1. split; auto.
+    unfold attr_marks. apply in_or_app. left. exact H2.
+  - right. unfold ldefs in Hr. apply in_flat_map in Hr. destruct Hr as (y & Hy & Hr). apply in_flat_map. exists y.
+    split; auto. rewrite Forall_forall in IH. apply (IH y Hy). exact Hr.
+Qed.
+Lemma refs_in_marks x : incl (refs_of x) (marks_of x).
+Proof.
+  induction x as [t a k IH] using xout_ind'. rewrite refs_of_eq, marks_of_eq. intros r Hr.
+  apply in_app_or in Hr. apply in_or_app. destruct Hr as [Hr|Hr].
+  - left. apply in_flat_map in Hr. destruct Hr as (at1 & H1 & H2). apply in_flat_map. exists at1. split; auto.
+    unfold attr_marks. apply in_or_app. right. exact H2.
+  - right. unfold lrefs in Hr. apply in_flat_map in Hr. destruct Hr as (y & Hy & Hr). apply in_flat_map. exists y.
+    split; auto. rewrite Forall_forall in IH. apply (IH y Hy). exact Hr.
+Qed.
+
+Section Prefix.
+  Variable o : wopts.
+  Let p := w_prefix o.
+  Definition allp (l : list (N * N)) : Prop := forall r, In r l -> fst r = p.
+  Lemma allp_nil : allp [].
+  Proof. intros r []. Qed.
+  Lemma allp_app a b : allp a -> allp b -> allp (a ++ b).
+  Proof. intros Ha Hb r Hr. apply in_app_or in Hr. destruct Hr; auto. Qed.
+  Lemma allp_flat_map {X} (f : X -> list (N * N)) l : (forall x, In x l -> allp (f x)) -> allp (flat_map f l).
+  Proof. intros H r Hr. apply in_flat_map in Hr. destruct Hr as (x & Hx & Hr). apply (H x Hx r Hr). Qed.
+  Lemma allp_lmarks_map {X} (f : X -> xout) l : (forall x, In x l -> allp (marks_of (f x))) -> allp (lmarks (map f l)).
+  Proof.
+    intros H. unfold lmarks. rewrite flat_map_concat_map, map_map, <- flat_map_concat_map. apply allp_flat_map. exact H.
+  Qed.
+
+  Lemma allp_id i : allp (flat_map attr_marks (id_attr o i)).
+  Proof. unfold id_attr. destruct (i =? 0); simpl; [apply allp_nil|]. intros r [<-|[]]. reflexivity. Qed.
+  Lemma allp_paint k pa : allp (flat_map attr_marks (paint_attr o k pa)).
+  Proof. destruct pa; simpl; try apply allp_nil; intros r [<-|[]]; reflexivity. Qed.
+  Lemma allp_opt {X} k (idf : X -> N) d : allp (flat_map attr_marks (opt_url o k idf d)).
+  Proof. destruct d; simpl; [intros r [<-|[]]; reflexivity|apply allp_nil]. Qed.
+
+  Lemma allp_path i fl st cr : allp (marks_of (write_path o i fl st cr)).
+  Proof.
+    unfold write_path. rewrite marks_of_eq. simpl lmarks. rewrite app_nil_r, !flat_map_app.
+    repeat apply allp_app; try apply allp_id; try apply allp_paint.
+    destruct cr; simpl; [intros r [<-|[]]; reflexivity|apply allp_nil].
+  Qed.
+  Lemma allp_chunk c : allp (marks_of (write_chunk o c)).
+  Proof.
+    assert (Hsp : forall sp, allp (lmarks (map (write_ppair o) sp))).
+    { intro sp. apply allp_lmarks_map. intros [fl st] _. simpl. rewrite app_nil_r, flat_map_app.
+      apply allp_app; apply allp_paint. }
+    destruct c as [[[q j]|] sp]; simpl.
+    - intros r [<-|Hr]; [reflexivity|]. rewrite app_nil_r in Hr. apply (Hsp sp r Hr).
+    - apply Hsp.
+  Qed.
+
+  Lemma allp_content :
+    (forall n clip, allp (lmarks (write_node o n clip))) /\
+    (forall g clip, allp (lmarks (write_group o g clip))) /\
+    (forall c : clipdef, True) /\ (forall m : maskdef, True) /\ (forall f : filterdef, True) /\
+    (forall x : prim, True) /\ (forall x : paint, True).
+  Proof.
+    apply tree_mutind; auto.
+    - intros i fl st _ _ clip. change (allp (lmarks [write_path o i fl st None])). rewrite lmarks_single.
+      apply allp_path.
+    - intros i sub _ clip. change (allp (lmarks [XE Timage (id_attr o i ++ [AHrefData]) []])). rewrite lmarks_single, marks_of_eq.
+      simpl lmarks. rewrite app_nil_r, flat_map_app. apply allp_app; [apply allp_id|simpl; apply allp_nil].
+    - intros i flat ch Hfl clip.
+      change (allp (lmarks (if w_preserve_text o then [XE Ttext (id_attr o i) (map (write_chunk o) ch)] else write_group o flat clip))).
+      destruct (w_preserve_text o); [|apply Hfl].
+      rewrite lmarks_single, marks_of_eq. apply allp_app; [apply allp_id|].
+      apply allp_lmarks_map. intros c _. apply allp_chunk.
+    - intros i c m fs ks _ _ _ Hks clip. destruct clip.
+      + rewrite write_group_clip. unfold lmarks. intros r Hr. apply in_flat_map in Hr. destruct Hr as (x & Hx & Hr).
+        apply in_flat_map in Hx. destruct Hx as (k & Hk & Hx).
+        destruct k as [|pi fl st| |]; unfold clip_kid in Hx; try (destruct Hx; fail).
+        destruct Hx as [<-|[]]. apply (allp_path _ _ _ _ r Hr).
+      + rewrite write_group_noclip. rewrite lmarks_single, marks_of_eq, !flat_map_app.
+        repeat apply allp_app; try apply allp_id; try apply allp_opt.
+        * destruct fs as [|f0 fr]; [apply allp_nil|]. simpl flat_map. rewrite app_nil_r.
+          intros r Hr. change (In r (map (fun f => (p, f_id f)) (f0 :: fr))) in Hr. apply in_map_iff in Hr.
+          destruct Hr as (f & <- & _). reflexivity.
+        * intros r Hr. unfold lmarks in Hr. apply in_flat_map in Hr. destruct Hr as (x & Hx & Hr).
+          apply in_flat_map in Hx. destruct Hx as (k & Hk & Hx). rewrite Forall_forall in Hks.
+          apply (Hks k Hk false r). unfold lmarks. apply in_flat_map. exists x. split; auto.
+  Qed.
+
+  Lemma allp_elements g clip : allp (lmarks (write_elements o g clip)).
+  Proof.
+    unfold write_elements. intros r Hr. unfold lmarks in Hr. apply in_flat_map in Hr. destruct Hr as (x & Hx & Hr).
+    apply in_flat_map in Hx. destruct Hx as (k & Hk & Hx). destruct allp_content as (H & _).
+    apply (H k clip r). unfold lmarks. apply in_flat_map. exists x. split; auto.
+  Qed.
+
+  Lemma allp_prim pr : allp (marks_of (write_prim o pr)).
+  Proof.
+    destruct pr as [k res ins img]. unfold write_prim.
+    assert (Hin : forall l j, flat_map attr_marks ((fix go (l : list finput) (j : N) : list aval :=
+                     match l with [] => [] | i :: r => AIn j i :: go r (j + 1) end) l j) = []).
+    { induction l as [|x l IH]; intro j; simpl; auto. }
+    destruct (k =? 12).
+    - rewrite marks_of_eq. simpl flat_map. apply allp_lmarks_map. intros i _. simpl. apply allp_nil.
+    - rewrite marks_of_eq. rewrite !flat_map_app, Hin. simpl. rewrite app_nil_r.
+      destruct img as [r0|]; simpl; [|apply allp_nil]. destruct (g_kids r0); simpl; [apply allp_nil|].
+      intros r [<-|[]]. reflexivity.
+  Qed.
+
+  Lemma allp_fe_children cs : forall written out w', write_fe_children o cs written = (out, w') -> allp (lmarks out).
+  Proof.
+    induction cs as [|c r IH]; intros written out w' H; simpl in H.
+    - inversion H; subst. apply allp_nil.
+    - destruct (existsb (N.eqb (node_id c)) written); [eapply IH; eauto|].
+      destruct (write_fe_children o r (written ++ [node_id c])) as [out1 w1] eqn:E1. inversion H; subst.
+      rewrite lmarks_app. apply allp_app; [apply (proj1 allp_content)|eapply IH; eauto].
+  Qed.
+  Lemma allp_filters fs : forall written, allp (lmarks (write_filters o fs written)).
+  Proof.
+    induction fs as [|f r IH]; intro written; simpl; [apply allp_nil|].
+    destruct (write_fe_children o (fe_children f) written) as [pre w'] eqn:E.
+    rewrite lmarks_app. apply allp_app; [eapply allp_fe_children; eauto|].
+    change (allp (lmarks ([XE Tfilter [AId p (f_id f)] (map (write_prim o) (f_prims f))] ++ write_filters o r w'))).
+    rewrite lmarks_app. apply allp_app; [|apply IH]. rewrite lmarks_single, marks_of_eq.
+    apply allp_app; [simpl; intros x [<-|[]]; reflexivity|]. apply allp_lmarks_map. intros pr _. apply allp_prim.
+  Qed.
+  Lemma allp_text_paths root : allp (lmarks (write_text_path_paths o root)).
+  Proof.
+    unfold write_text_path_paths.
+    apply (walk_group_inv false (fun n acc => acc ++ text_path_defs o n) root (fun acc => allp (lmarks acc))); [|apply allp_nil].
+    intros m a _ Ha. rewrite lmarks_app. apply allp_app; auto. destruct m; simpl; try apply allp_nil.
+    induction chunks as [|c r IH]; simpl; [apply allp_nil|]. destruct c as [[[q j]|] sp]; simpl; auto.
+    rewrite app_nil_r. apply allp_app; auto. apply allp_id.
+  Qed.
+
+  Theorem marks_prefix t : allp (marks_of (write o t)).
+  Proof.
+    unfold write. rewrite marks_of_eq. apply allp_app.
+    { destruct (has_xlink (t_root t)); simpl; apply allp_nil. }
+    change (allp (lmarks ([XE Tdefs [] (write_defs o t)] ++ write_elements o (t_root t) false))).
+    rewrite lmarks_app. apply allp_app; [|apply allp_elements].
+    rewrite lmarks_single, marks_of_eq. apply allp_app; [apply allp_nil|].
+    unfold write_defs. rewrite !lmarks_app.
+    repeat apply allp_app.
+    - apply allp_lmarks_map. intros d _. simpl. intros r [<-|[]]. reflexivity.
+    - apply allp_lmarks_map. intros d _. simpl. intros r [<-|[]]. reflexivity.
+    - apply allp_lmarks_map. intros d _. unfold write_pat. rewrite marks_of_eq. apply allp_app.
+      + simpl. intros r [<-|[]]. reflexivity.
+      + destruct d; try apply allp_nil. apply allp_elements.
+    - unfold has_text_nodes. apply allp_text_paths.
+    - apply allp_filters.
+    - apply allp_lmarks_map. intros c _. unfold write_clip. rewrite marks_of_eq. apply allp_app; [|apply allp_elements].
+      rewrite flat_map_app. apply allp_app; [simpl; intros r [<-|[]]; reflexivity|apply allp_opt].
+    - apply allp_lmarks_map. intros c _. unfold write_mask. rewrite marks_of_eq. apply allp_app; [|apply allp_elements].
+      rewrite flat_map_app. apply allp_app; [simpl; intros r [<-|[]]; reflexivity|apply allp_opt].
+  Qed.
+End Prefix.
+
+(* ================================================================================================ *)
+(* xlink is declared whenever it is used                                                            *)
+Definition lx (l : list xout) : bool := existsb uses_xlink l.
+Lemma uses_xlink_eq t a k : uses_xlink (XE t a k) = existsb attr_xlink a || lx k.
+Proof. reflexivity. Qed.
+Lemma lx_app a b : lx (a ++ b) = lx a || lx b.
+Proof. apply existsb_app. Qed.
+Lemma lx_flat_map {X} (f : X -> list xout) l : lx (flat_map f l) = true -> exists x, In x l /\ lx (f x) = true.
+Proof.
+  induction l as [|x r IH]; simpl; [discriminate|]. rewrite lx_app. intro H. apply orb_true_iff in H.
+  destruct H as [H|H]; [exists x; auto|]. destruct (IH H) as (y & Hy & Hl). exists y; auto.
+Qed.
+Lemma lx_map {X} (f : X -> xout) l : lx (map f l) = true -> exists x, In x l /\ uses_xlink (f x) = true.
+Proof.
+  unfold lx. rewrite existsb_exists. intros (y & Hy & H). apply in_map_iff in Hy. destruct Hy as (x & <- & Hx). eauto.
+Qed.
+Lemma lx_single x : lx [x] = uses_xlink x.
+Proof. unfold lx. simpl. apply orb_false_r. Qed.
+
+Section Xlink.
+  Variable o : wopts.
+  Let p := w_prefix o.
+
+  Lemma id_attr_nox i : existsb attr_xlink (id_attr o i) = false.
+  Proof. unfold id_attr. destruct (i =? 0); reflexivity. Qed.
+  Lemma paint_attr_nox k pa : existsb attr_xlink (paint_attr o k pa) = false.
+  Proof. destruct pa; reflexivity. Qed.
+  Lemma opt_url_nox {X} k (f : X -> N) d : existsb attr_xlink (opt_url o k f d) = false.
+  Proof. destruct d; reflexivity. Qed.
+  Lemma write_path_nox i fl st cr : uses_xlink (write_path o i fl st cr) = false.
+  Proof.
+    unfold write_path. rewrite uses_xlink_eq. simpl lx. rewrite orb_false_r, !existsb_app, id_attr_nox, !paint_attr_nox.
+    destruct cr; reflexivity.
+  Qed.
+
+  Lemma xl_content :
+    (forall n clip, lx (write_node o n clip) = true -> exists m, In m (all_node n) /\ xlink_trigger m = true) /\
+    (forall g clip, lx (write_group o g clip) = true -> exists m, In m (all_group g) /\ xlink_trigger m = true) /\
+    (forall c : clipdef, True) /\ (forall m : maskdef, True) /\ (forall f : filterdef, True) /\
+    (forall x : prim, True) /\ (forall x : paint, True).
+  Proof.
+    apply tree_mutind; auto.
+    - intros g Hg clip H. change (lx (write_group o g clip) = true) in H. destruct (Hg clip H) as (m & Hm & Ht).
+      exists m. split; auto. rewrite all_node_group. right. apply in_or_app. left. exact Hm.
+    - intros i fl st _ _ clip H. change (lx [write_path o i fl st None] = true) in H.
+      rewrite lx_single, write_path_nox in H. discriminate.
+    - intros i sub _ clip _. exists (NImage i sub). split; [apply self_in_all_node|reflexivity].
+    - intros i flat ch Hfl clip H.
+      change (lx (if w_preserve_text o then [XE Ttext (id_attr o i) (map (write_chunk o) ch)] else write_group o flat clip) = true) in H.
+      destruct (w_preserve_text o).
+      + exists (NText i flat ch). split; [apply self_in_all_node|]. rewrite lx_single, uses_xlink_eq, id_attr_nox in H.
+        simpl orb in H. apply lx_map in H. destruct H as (c & Hc & H). simpl. apply existsb_exists. exists c. split; auto.
+        destruct c as [[[q j]|] sp]; auto. exfalso. unfold write_chunk in H. rewrite uses_xlink_eq in H.
+        simpl orb in H. apply lx_map in H. destruct H as ([fl st] & _ & H). unfold write_ppair in H.
+        rewrite uses_xlink_eq, existsb_app, !paint_attr_nox in H. discriminate.
+      + destruct (Hfl clip H) as (m & Hm & Ht). exists m. split; auto. rewrite all_node_text. right. exact Hm.
+    - intros i c m fs ks _ _ _ Hks clip H. rewrite all_group_eq. destruct clip.
+      + rewrite write_group_clip in H. apply lx_flat_map in H. destruct H as (k & Hk & H).
+        destruct k as [|pi fl st| |]; unfold clip_kid in H; try discriminate.
+        rewrite lx_single, write_path_nox in H. discriminate.
+      + rewrite write_group_noclip, lx_single, uses_xlink_eq in H. rewrite !existsb_app, id_attr_nox, !opt_url_nox in H.
+        assert (H' : lx (flat_map (fun k => write_node o k false) ks) = true)
+          by (destruct fs; cbn [orb existsb attr_xlink] in H; exact H).
+        clear H. rename H' into H. apply lx_flat_map in H. destruct H as (k & Hk & H).
+        rewrite Forall_forall in Hks. destruct (Hks k Hk false H) as (m0 & Hm0 & Ht). exists m0. split; auto.
+        apply in_flat_map. exists k. split; auto.
+  Qed.
+
+  Lemma xl_elements g clip : lx (write_elements o g clip) = true -> exists m, In m (all_group g) /\ xlink_trigger m = true.
+  Proof.
+    unfold write_elements. intro H. apply lx_flat_map in H. destruct H as (k & Hk & H).
+    destruct (proj1 xl_content k clip H) as (m & Hm & Ht). exists m. split; auto.
+    destruct g as [i c mk fs ks]. rewrite all_group_eq. apply in_flat_map. exists k. split; auto.
+  Qed.
+
+  Lemma has_xlink_complete root n : In n (all_group root) -> xlink_trigger n = true -> has_xlink root = true.
+  Proof.
+    intros Hn Ht. unfold has_xlink.
+    apply (walk_group_done false (fun n b => b || xlink_trigger n) (fun n b => xlink_trigger n = true -> b = true)) with (n := n); auto.
+    - intros k a Hk. rewrite Hk. apply orb_true_r.
+    - intros k m a Hk Hk'. rewrite (Hk Hk'). reflexivity.
+  Qed.
+
+  Lemma xl_fe_children cs : forall written out w', write_fe_children o cs written = (out, w') -> lx out = true ->
+    exists c, In c cs /\ lx (write_node o c false) = true.
+  Proof.
+    induction cs as [|c r IH]; intros written out w' H Hl; simpl in H.
+    - inversion H; subst. discriminate.
+    - destruct (existsb (N.eqb (node_id c)) written).
+      + destruct (IH _ _ _ H Hl) as (c0 & H0 & H1). exists c0. split; auto. right; auto.
+      + destruct (write_fe_children o r (written ++ [node_id c])) as [out1 w1] eqn:E1. inversion H; subst.
+        rewrite lx_app in Hl. apply orb_true_iff in Hl. destruct Hl as [Hl|Hl].
+        * exists c. split; auto. left; reflexivity.
+        * destruct (IH _ _ _ E1 Hl) as (c0 & H0 & H1). exists c0. split; auto. right; auto.
+  Qed.
+
+  Lemma xl_prim pr : uses_xlink (write_prim o pr) = true -> exists r, p_img pr = Some r.
+  Proof.
+    destruct pr as [k res ins img]. unfold write_prim.
+    assert (Hin : forall l j, existsb attr_xlink ((fix go (l : list finput) (j : N) : list aval :=
+                     match l with [] => [] | i :: r => AIn j i :: go r (j + 1) end) l j) = false).
+    { induction l as [|x l IH]; intro j; simpl; auto. }
+    destruct (k =? 12).
+    - rewrite uses_xlink_eq. simpl existsb. intro H. exfalso. simpl in H.
+      induction ins as [|x l IH]; simpl in H; [discriminate|auto].
+    - rewrite uses_xlink_eq, !existsb_app, Hin. simpl. rewrite !orb_false_r. destruct img as [r0|]; [eauto|discriminate].
+  Qed.
+
+  Lemma xl_filters fs : forall written, lx (write_filters o fs written) = true ->
+    exists f, In f fs /\ ((exists c, In c (fe_children f) /\ lx (write_node o c false) = true) \/
+                          (exists pr r, In pr (f_prims f) /\ p_img pr = Some r)).
+  Proof.
+    induction fs as [|f rest IH]; intros written H; simpl in H; [discriminate|].
+    destruct (write_fe_children o (fe_children f) written) as [pre w'] eqn:E.
+    rewrite lx_app in H. apply orb_true_iff in H. destruct H as [H|H].
+    - destruct (xl_fe_children _ _ _ _ E H) as (c & Hc & H1). exists f. split; [left; reflexivity|]. left. eauto.
+    - change (lx ([XE Tfilter [AId p (f_id f)] (map (write_prim o) (f_prims f))] ++ write_filters o rest w') = true) in H.
+      rewrite lx_app in H. apply orb_true_iff in H. destruct H as [H|H].
+      + rewrite lx_single, uses_xlink_eq in H. simpl orb in H. apply lx_map in H. destruct H as (pr & Hpr & H).
+        apply xl_prim in H. destruct H as (r & Hr). exists f. split; [left; reflexivity|]. right. eauto.
+      + destruct (IH _ H) as (f0 & Hf0 & H1). exists f0. split; auto. right; auto.
+  Qed.
+
+  Lemma xl_text_paths root : lx (write_text_path_paths o root) = false.
+  Proof.
+    unfold write_text_path_paths.
+    apply (walk_group_inv false (fun n acc => acc ++ text_path_defs o n) root (fun acc => lx acc = false)); auto.
+    intros m a _ Ha. rewrite lx_app, Ha. simpl. destruct m; simpl; auto.
+    induction chunks as [|c r IH]; simpl; auto. destruct c as [[[q j]|] sp]; simpl; auto.
+    rewrite id_attr_nox. simpl. exact IH.
+  Qed.
+
+  Theorem xlink_declared t : coll_sound t -> uses_xlink (write o t) = true -> declares_xlink (write o t) = true.
+  Proof.
+    intros Hsound H. set (root := t_root t).
+    assert (Hgoal : has_xlink root = true).
+    2:{ unfold write, declares_xlink. fold root. rewrite Hgoal. reflexivity. }
+    assert (Hsub : forall g, (forall k, In k (g_kids g) -> In k (all_group root)) ->
+                   forall m, In m (all_group g) -> In m (all_group root)).
+    { intros g Hk m Hm. destruct g as [i c mk fs ks]. rewrite all_group_eq in Hm. apply in_flat_map in Hm.
+      destruct Hm as (k & Hkin & Hm). apply (U_closed root k (Hk k Hkin)). exact Hm. }
+    unfold write in H. rewrite uses_xlink_eq in H.
+    assert (E : existsb attr_xlink (AXmlns :: (if has_xlink (t_root t) then [AXlink] else [])) = false)
+      by (destruct (has_xlink (t_root t)); reflexivity).
+    rewrite E in H. simpl orb in H.
+    change (lx ([XE Tdefs [] (write_defs o t)] ++ write_elements o root false) = true) in H.
+    rewrite lx_app in H. apply orb_true_iff in H. destruct H as [H|H].
+    2:{ destruct (xl_elements root false H) as (m & Hm & Ht). apply (has_xlink_complete root m Hm Ht). }
+    rewrite lx_single, uses_xlink_eq in H. simpl orb in H. unfold write_defs in H. rewrite !lx_app in H.
+    destruct Hsound as (S1 & S2 & S3 & _ & _ & S6).
+    repeat (apply orb_true_iff in H; destruct H as [H|H]).
+    - apply lx_map in H. destruct H as (d & _ & H). simpl in H. discriminate.
+    - apply lx_map in H. destruct H as (d & _ & H). simpl in H. discriminate.
+    - apply lx_map in H. destruct H as (d & Hd & H). unfold write_pat in H. rewrite uses_xlink_eq in H. simpl orb in H.
+      destruct d as [| | | |q j r0]; try discriminate. destruct (xl_elements r0 false H) as (m & Hm & Ht).
+      apply (has_xlink_complete root m); auto. apply (Hsub r0); auto. intros k Hk.
+      specialize (S6 _ Hd). unfold reach_defs in S6. apply in_flat_map in S6. destruct S6 as (n & Hn & Hin).
+      destruct n as [|i fl st| |]; cbn [node_paints] in Hin; try (destruct Hin; fail).
+      apply (U_pattern_kid root i fl st q j r0 k Hn); auto.
+      apply filter_In in Hin. destruct Hin as [[<-|[<-|[]]] _]; auto.
+    - unfold has_text_nodes in H. rewrite xl_text_paths in H. discriminate.
+    - apply xl_filters in H. destruct H as (f & Hf & H).
+      specialize (S3 f Hf). unfold reach_filters, reach_defs in S3. apply in_flat_map in S3. destruct S3 as (n & Hn & Hin).
+      destruct n as [g| | |]; simpl in Hin; try destruct Hin.
+      apply (has_xlink_complete root (NGroup g) Hn). simpl. apply existsb_exists. exists f. split; auto.
+      destruct H as [(c & Hc & _)|(pr & r & Hpr & Hi)].
+      + unfold fe_children in Hc. apply in_flat_map in Hc. destruct Hc as (pr & Hpr & Hc). apply existsb_exists.
+        exists pr. split; auto. destruct (p_img pr); [reflexivity|destruct Hc].
+      + apply existsb_exists. exists pr. split; auto. rewrite Hi. reflexivity.
+    - apply lx_map in H. destruct H as (c & Hc & H). unfold write_clip in H. rewrite uses_xlink_eq in H.
+      rewrite existsb_app, opt_url_nox in H. simpl orb in H. destruct (xl_elements (c_root c) true H) as (m & Hm & Ht).
+      apply (has_xlink_complete root m); auto. apply (Hsub (c_root c)); auto. intros k Hk.
+      specialize (S1 c Hc). unfold reach_clips, reach_defs in S1. apply in_flat_map in S1. destruct S1 as (n & Hn & Hin).
+      destruct n as [g| | |]; simpl in Hin; try destruct Hin. apply (U_clip_kid root g c k Hn Hin Hk).
+    - apply lx_map in H. destruct H as (c & Hc & H). unfold write_mask in H. rewrite uses_xlink_eq in H.
+      rewrite existsb_app, opt_url_nox in H. simpl orb in H. destruct (xl_elements (m_root c) false H) as (m & Hm & Ht).
+      apply (has_xlink_complete root m); auto. apply (Hsub (m_root c)); auto. intros k Hk.
+      specialize (S2 c Hc). unfold reach_masks, reach_defs in S2. apply in_flat_map in S2. destruct S2 as (n & Hn & Hin).
+      destruct n as [g| | |]; simpl in Hin; try destruct Hin. apply (U_mask_kid root g c k Hn Hin Hk).
+  Qed.
+End Xlink.
